@@ -295,14 +295,14 @@ type kase struct {
 	m        *model
 	owners   []string // all owner keys of the operated owner table
 	vals     []*ownerVal
-	slice    reflect.Value     // *[]Owner in slice mode
-	ptrElems bool              // slice mode: the owners are a []*Owner
-	pool     string            // name of the key pools in use
-	universe []string          // application-assigned keys: unused target keys
+	slice    reflect.Value              // *[]Owner in slice mode
+	ptrElems bool                       // slice mode: the owners are a []*Owner
+	pool     string                     // name of the key pools in use
+	universe []string                   // application-assigned keys: unused target keys
 	dead     map[string]map[string]bool // soft-delete join model: soft-deleted join rows seeded with raw SQL (owner -> targets)
-	gone     map[string]string // records removed for good by an Unscoped call of this sequence: key -> name
-	callUsed map[string]bool   // keys of new / re-created records already named in the call being generated
-	noShare  bool              // belongs-to with Unscoped steps: a target is never linked to two owners
+	gone     map[string]string          // records removed for good by an Unscoped call of this sequence: key -> name
+	callUsed map[string]bool            // keys of new / re-created records already named in the call being generated
+	noShare  bool                       // belongs-to with Unscoped steps: a target is never linked to two owners
 	newSeq   int
 	calls    []string
 	seedDump map[string]interface{}
@@ -494,7 +494,7 @@ func copyMap(m map[string]string) map[string]string {
 // owner is still stored soft-deleted (left by an earlier removal) may be appended to that owner
 // again ("Append adds"). On the unchanged tree this is a deviation of gorm with its own signature
 // (many2many-soft-delete-join-model-relink-after-removal-not-stored); false = not generated.
-const relinkSoftJoin = false
+const relinkSoftJoin = true
 
 // pickTargets chooses n targets for owner o; avoid = keys that must not be chosen (no-share rules).
 func (k *kase) pickTargets(o string, n int, forDelete bool, allowNew bool, avoid map[string]bool, noOther bool) []*targ {
@@ -862,7 +862,9 @@ func (k *kase) exec(st *step) (err error, count int64, found []string) {
 func (k *kase) checkState(st *step, eff *effect) []problem {
 	s, m := k.spec, k.m
 	var ps []problem
-	add := func(what, f string, a ...interface{}) { ps = append(ps, problem{what: what, msg: fmt.Sprintf(f, a...)}) }
+	add := func(what, f string, a ...interface{}) {
+		ps = append(ps, problem{what: what, msg: fmt.Sprintf(f, a...)})
+	}
 	// stored links of every owner row (operated owners, bystanders, decoy owner type)
 	db := s.readLinks()
 	owners := map[string]bool{}
@@ -1202,7 +1204,7 @@ func onlyUnscopedReads(ps []problem) bool {
 
 type snapshot struct {
 	links map[string]map[string]bool
-	dead  map[string]map[string]int // soft-delete join model: soft-deleted join rows stored before the step
+	dead  map[string]map[string]int  // soft-delete join model: soft-deleted join rows stored before the step
 	mem   map[string]map[string]bool // owner key -> keys held by its operated value
 }
 
